@@ -78,6 +78,12 @@ func (h *H) Gen(rng *rand.Rand, tier, prop string) core.Cfg {
 		c.Sim.Boost["io"] = 3
 	}
 	c.Files = core.Between(rng, 1, 3)
+	// a profile aimed at resume positions of files that carry several streams: one file, three streams,
+	// lines in quick succession, out-of-order acknowledgements, offsets saved often, one kill in mid-stream
+	multi := core.Chance(rng, 0.2)
+	if multi {
+		c.Files = 1
+	}
 	c.Sync = core.Chance(rng, 0.3)
 	c.AsyncIvl = core.DurBetween(rng, 50*time.Millisecond, 2*time.Second)
 	c.MaintIvl = core.DurBetween(rng, 100*time.Millisecond, 5*time.Second)
@@ -88,6 +94,11 @@ func (h *H) Gen(rng *rand.Rand, tier, prop string) core.Cfg {
 	c.SingleProc = core.Chance(rng, 0.4)
 	c.Pool = core.Pick(rng, "std", "low_memory")
 	streams := []string{"a", "b", "c"}[:core.Between(rng, 1, 3)]
+	if multi {
+		streams = []string{"a", "b", "c"}
+		c.Sync = core.Chance(rng, 0.6)
+		c.AsyncIvl = core.DurBetween(rng, 5*time.Millisecond, 100*time.Millisecond)
+	}
 	maxOps := 40
 	if tier == "thorough" {
 		maxOps = 150
@@ -106,7 +117,7 @@ func (h *H) Gen(rng *rand.Rand, tier, prop string) core.Cfg {
 			id++
 			op.Kind, op.ID, op.Stream, op.Pad = "partial", id, streams[rng.IntN(len(streams))], core.Between(rng, 0, 40)
 			partial[f] = true
-		case core.Chance(rng, 0.08):
+		case !multi && core.Chance(rng, 0.08):
 			op.Kind = "rotate"
 		default:
 			id++
@@ -114,6 +125,8 @@ func (h *H) Gen(rng *rand.Rand, tier, prop string) core.Cfg {
 		}
 		switch {
 		case core.Chance(rng, 0.5):
+		case multi:
+			op.Pause = core.DurBetween(rng, time.Millisecond, 20*time.Millisecond)
 		case core.Chance(rng, 0.8):
 			op.Pause = core.DurBetween(rng, time.Millisecond, 300*time.Millisecond)
 		default:
@@ -141,6 +154,12 @@ func (h *H) Gen(rng *rand.Rand, tier, prop string) core.Cfg {
 		c.Sim.Faults["notify.drop"] = 0.3
 	}
 	nk := core.Pick(rng, 0, 1, 1, 1, 2, 3)
+	if multi {
+		nk = core.Pick(rng, 1, 1, 2)
+		c.Sink.Workers, c.Sink.Count = core.Between(rng, 2, 3), core.Between(rng, 1, 2)
+		c.Sink.Flush = core.DurBetween(rng, 2*time.Millisecond, 30*time.Millisecond)
+		c.Sink.MaxLatency = core.Pick(rng, 5*time.Millisecond, 50*time.Millisecond)
+	}
 	if nk == 0 && core.Chance(rng, 0.6) {
 		// truncation while file.d is running (never combined with kills: after a restart a truncated
 		// file that has grown past the saved offset again cannot be told from an appended one)
@@ -181,6 +200,11 @@ func (h *H) Gen(rng *rand.Rand, tier, prop string) core.Cfg {
 		}
 	}
 	for k := 0; k < nk; k++ {
+		if multi {
+			c.Kills = append(c.Kills, core.DurBetween(rng, time.Millisecond, total+100*time.Millisecond))
+			c.Down = append(c.Down, core.Pick(rng, time.Millisecond, 100*time.Millisecond))
+			continue
+		}
 		c.Kills = append(c.Kills, core.DurBetween(rng, time.Millisecond, total+2*time.Second))
 		c.Down = append(c.Down, core.Pick(rng, time.Millisecond, 100*time.Millisecond, 2*time.Second))
 	}
@@ -629,6 +653,11 @@ func (h *H) Run(cc core.Cfg, sim *simrt.Sim) *core.Outcome {
 			sig = "died/offset-corruption"
 			if r.rereadSameIncarnation {
 				sig += "/job-recreated-for-the-same-inode-with-commits-in-flight"
+			} else if r.truncMultiStream {
+				// same root cause as line-lost/.../multi-stream-file-with-uncommitted-lines-at-the-truncation: the stale
+				// commit of another stream is not ignored and writes the old large offset back; the next commit of a
+				// line written after the truncation then trips the plugin's own offset check
+				sig += "/after-truncation/multi-stream-file-with-uncommitted-lines-at-the-truncation"
 			}
 		case strings.Contains(d, "stat error") && strings.Contains(d, "file already closed"):
 			sig = "died/deleted-job-resumed-with-closed-file"
